@@ -945,8 +945,47 @@ func c15GapRankDirection(e *c15Env) {
 		if !mentionsAmt(a) || !mentionsAmt(b) {
 			return true
 		}
-		ai, aj := c15UsesObj(info, a, pi), c15UsesObj(info, a, pj)
-		bi, bj := c15UsesObj(info, b, pi), c15UsesObj(info, b, pj)
+		// the index may reach the operand through once-defined locals ( lhs, rhs := vl.Votes[i], vl.Votes[j] )
+		var uses func(x ast.Expr, prm types.Object, depth int) bool
+		uses = func(x ast.Expr, prm types.Object, depth int) bool {
+			if c15UsesObj(info, x, prm) {
+				return true
+			}
+			if depth > 3 {
+				return false
+			}
+			found := false
+			ast.Inspect(x, func(n ast.Node) bool {
+				id, isID := n.(*ast.Ident)
+				if !isID || found {
+					return !found
+				}
+				o := info.Uses[id]
+				if o == nil {
+					return true
+				}
+				defs := 0
+				var rhs ast.Expr
+				ast.Inspect(lf.Body, func(m ast.Node) bool {
+					if d, isAs := m.(*ast.AssignStmt); isAs && len(d.Lhs) == len(d.Rhs) {
+						for k, l := range d.Lhs {
+							if li, isL := l.(*ast.Ident); isL && (info.Defs[li] == o || info.Uses[li] == o) {
+								defs++
+								rhs = d.Rhs[k]
+							}
+						}
+					}
+					return true
+				})
+				if defs == 1 && rhs != nil && uses(rhs, prm, depth+1) {
+					found = true
+				}
+				return !found
+			})
+			return found
+		}
+		ai, aj := uses(a, pi, 0), uses(a, pj, 0)
+		bi, bj := uses(b, pi, 0), uses(b, pj, 0)
 		switch {
 		case ai && !aj && bj && !bi:
 			primary, flip = an.ObjOf(info, as.Lhs[0]), false
